@@ -34,7 +34,7 @@ class LoopSpec:
 class Contract:
     def __init__(self, file, qualname, params, returns=S.Any, requires=(), ensures=(), modifies=None, loops=None,
                  raises=None, ghost_init=None, callbacks=None, local_types=None, inline=False, opaque=False,
-                 trusted=False, note='', allow_raise=(), pre_assume=(), type_invariants=True, ghost_hooks=None, fresh_fields=None, allocates=True, track_keys=False, stop_before=None, merge_before=()):
+                 trusted=False, note='', allow_raise=(), pre_assume=(), type_invariants=True, ghost_hooks=None, fresh_fields=None, allocates=True, track_keys=False, stop_before=None, merge_before=(), before_call_hooks=None):
         self.file, self.qualname = file, qualname
         self.params = dict(params)              # ordered name -> Ty ('self' included for methods)
         self.returns = returns
@@ -56,6 +56,7 @@ class Contract:
         self.fresh_fields = fresh_fields        # heap fields holding content of objects the function allocates (None: from `returns`)
         self.allocates = allocates
         self.merge_before = tuple(merge_before)  # statement source prefixes before which all normally-continuing paths are joined into one state (exact join)
+        self.before_call_hooks = before_call_hooks or {}   # callee qualname -> fn(ex, st, node): ghost/cut code run right before the call
         self.stop_before = stop_before          # verify only the PREFIX of the body: execution stops before the first statement whose source starts with this text
         self.track_keys = track_keys            # dict insertion order is tracked (ghost field 'keys') for this function
         self.ghost_hooks = ghost_hooks or {}    # 'after_call:<qualname>' -> fn(ex, st, bound_args, result, old_view)
